@@ -37,6 +37,9 @@
 #include <unordered_map>
 #include <variant>
 
+#include <sys/wait.h>
+#include <unistd.h>
+
 using namespace Opm;
 namespace fs = std::filesystem;
 using Strs = std::vector<std::string>;
@@ -605,6 +608,92 @@ static std::optional<UDQSet> realEval(const Strs& deck, char target, Env& env) {
 
 // ---------------------------------------------------------------------------------------------
 
+// run `f` in a forked child: 0 = returned, 1 = threw, -signal = killed (SIGSEGV, SIGABRT, alarm)
+static int runIsolated(const std::function<void()>& f) {
+    std::cout.flush(); std::cerr.flush();
+    pid_t pid = fork();
+    if (pid < 0) return 0;
+    if (pid == 0) {
+        alarm(20);
+        int rc = 0;
+        try { f(); } catch (...) { rc = 1; }
+        _exit(rc);
+    }
+    int st = 0;
+    waitpid(pid, &st, 0);
+    if (WIFSIGNALED(st)) return -WTERMSIG(st);
+    return WEXITSTATUS(st);
+}
+
+static ParseContext lenientAll() {
+    ParseContext pc;
+    pc.update(ParseContext::UDQ_PARSE_ERROR, InputErrorAction::IGNORE);
+    pc.update(ParseContext::UDQ_TYPE_ERROR, InputErrorAction::IGNORE);
+    return pc;
+}
+
+static bool isSymbolTok(const std::string& t) {
+    static const std::set<std::string> sym = { "+", "-", "*", "/", "^", "(", ")", "[", "]", "==", "!=", ">=", "<=", ">", "<" };
+    return sym.count(t) > 0 || (!t.empty() && t[0] == '\'');
+}
+
+// glue neighbouring tokens into one deck item where this cannot merge two words
+static Strs glueItems(vh::Rng& rng, const Strs& toks, int num, int den) {
+    Strs items;
+    for (size_t i = 0; i < toks.size(); ++i) {
+        bool glue = i > 0 && (isSymbolTok(toks[i - 1]) || isSymbolTok(toks[i])) && rng.coin(num, den);
+        // two comparison / sign characters in a row could form another operator ("<" "=" ...): keep them apart
+        if (glue && !items.back().empty() && std::string("<>=!").find(items.back().back()) != std::string::npos && !toks[i].empty() && toks[i][0] == '=') glue = false;
+        if (glue) items.back() += toks[i]; else items.push_back(toks[i]);
+    }
+    return items;
+}
+
+static std::string randNumber(vh::Rng& rng) {
+    switch (rng.below(8)) {
+    case 0: return std::to_string(rng.range(0, 9999));
+    case 1: return std::to_string(rng.range(0, 99)) + "." + std::to_string(rng.range(0, 999));
+    case 2: return std::to_string(rng.range(1, 9)) + "." + std::to_string(rng.range(0, 99)) + (rng.coin() ? "E" : "e") + rng.pick(Strs{ "", "+", "-" }) + std::to_string(rng.range(0, 12));
+    case 3: return "." + std::to_string(rng.range(1, 99));
+    case 4: return std::to_string(rng.range(0, 9)) + ".";
+    case 5: return std::to_string(rng.range(1, 99)) + "e" + std::to_string(rng.range(0, 5));
+    case 6: return "0." + std::string(static_cast<size_t>(rng.range(0, 4)), '0') + std::to_string(rng.range(1, 999));
+    default: return rng.pick(kValues);
+    }
+}
+
+// token strings of a DEFINE right-hand side for the tokeniser tests (well / scalar quantities only)
+static Strs lexExpr(vh::Rng& rng, const World& w) {
+    Gen g(rng, w, 'W');
+    Strs e = g.expr(rng.coin() ? 'W' : 'S', rng.range(1, 4));
+    for (auto& t : e) { char* end = nullptr; std::strtod(t.c_str(), &end); if (*end == 0 && rng.coin()) t = randNumber(rng); }
+    if (rng.coin(1, 4)) {   // a table look-up somewhere
+        Strs lk = { "TU_FBHP", "[", rng.pick(Strs{ "FOPR", "WOPR", "FUA" }), "]" };
+        size_t p = rng.below(e.size() + 1);
+        if (p < e.size()) { e.insert(e.begin() + static_cast<long>(p), rng.pick(Strs{ "+", "*" })); }
+        else { e.push_back(rng.pick(Strs{ "+", "*" })); ++p; }
+        e.insert(e.begin() + static_cast<long>(p), lk.begin(), lk.end());
+    }
+    return e;
+}
+
+static std::string defineTokens(const Strs& items, bool& unbalanced, bool& other) {
+    UDQParams udqp;
+    KeywordLocation loc;
+    ErrorGuard errors;
+    auto pc = lenientAll();
+    unbalanced = other = false;
+    std::string out;
+    try {
+        UDQDefine def(udqp, "WUX", 0, loc, items, pc, errors);
+        for (auto& t : def.tokens()) out += " " + tokProto(t);
+    } catch (const std::invalid_argument& e) {
+        if (std::string(e.what()).rfind("Unbalanced quotes", 0) == 0) unbalanced = true; else other = true;
+    } catch (const std::exception&) { other = true; }
+    errors.clear();
+    return out;
+}
+
 int main(int argc, char** argv) {
     if (argc < 5) { std::cerr << "usage: udq corr|prop <seed> <tier> <outdir>\n"; return 2; }
     const std::string mode = argv[1];
@@ -761,6 +850,224 @@ int main(int argc, char** argv) {
                 }
                 sink.emit(op, ans);
                 sink.count("hist");
+            }
+        }
+        // (6) var_type / static type check: parseUDQExpression with the DEFINE's target type.
+        //     Every chain of three operands over well / group / field / scalar leaves, with and
+        //     without parentheses, and random (also malformed) token sequences.
+        {
+            struct LeafSpec { std::string name; Strs sel; };
+            const std::vector<LeafSpec> leaves = { { "WOPR", {} }, { "GOPR", {} }, { "FOPR", {} }, { "1", {} }, { "WOPR", { "P1" } },
+                                                   { "WOPR", { "P*" } }, { "GOPR", { "G1" } }, { "WUA", {} }, { "FUA", {} }, { "TCPU", {} },
+                                                   { "TU_FBHP", { "FOPR" } }, { "TU_WT", { "WOPR" } } };
+            auto mk = [&](const std::vector<std::string>& spec) {
+                // spec items: operator / parenthesis / function strings, or "#k" = leaf number k
+                std::vector<UDQToken> out;
+                for (auto& s : spec) {
+                    if (s[0] == '#') { const LeafSpec& l = leaves[static_cast<size_t>(std::stoi(s.substr(1)))];
+                        if (UDQ::tokenType(l.name) == UDQTokenType::number) out.emplace_back(l.name, UDQTokenType::number); else out.emplace_back(l.name, l.sel); }
+                    else {
+                        auto ty = UDQ::tokenType(s);
+                        if (ty == UDQTokenType::ecl_expr) out.emplace_back(s, Strs{}); else out.emplace_back(s, ty);
+                    }
+                }
+                return out;
+            };
+            auto emitType = [&](const std::vector<UDQToken>& toks, char target, const std::string& tag) {
+                UDQParams udqp;
+                KeywordLocation loc;
+                ErrorGuard errors;
+                auto pc = lenientTypes();
+                std::string ans;
+                try {
+                    auto ast = parseUDQExpression(udqp, targetOf(target), std::string(1, target) + "UX", loc, toks, pc, errors);
+                    NodeInfo top = readNode(*ast);
+                    if (top.type == UDQTokenType::number && std::get<double>(top.value) == udqp.undefinedValue()
+                        && !(toks.size() == 1 && toks[0].type() == UDQTokenType::number))
+                        ans = "typeerr";
+                    else { bool ev = true; ans = "ok " + std::to_string(static_cast<int>(top.vt)) + " " + showTree(*ast, ev); }
+                } catch (const std::logic_error&) { ans = "throw"; }      // UDQ::coerce, unsupported variable type
+                catch (const std::exception&) { ans = "err"; }
+                errors.clear();
+                std::string op = std::string("udq.vtype ") + target;
+                for (auto& t : toks) op += " " + tokProto(t);
+                sink.emit(op, ans);
+                sink.count("vtype." + tag);
+                sink.count("vtype.answer." + ans.substr(0, ans.find(' ')));
+            };
+            const std::vector<char> targets = { 'W', 'G', 'F' };
+            for (int a = 0; a < 5; ++a) for (int b = 0; b < 5; ++b) for (int c = 0; c < 5; ++c)
+                for (const char* o : { "+", "*" }) for (char t : targets) {
+                    std::string A = "#" + std::to_string(a), B = "#" + std::to_string(b), C = "#" + std::to_string(c);
+                    emitType(mk({ A, o, B, o, C }), t, "chain3");
+                    if (t == 'F' || thorough) {
+                        emitType(mk({ "(", A, o, B, ")", o, C }), t, "chain3_paren");
+                        emitType(mk({ A, o, "(", B, o, C, ")" }), t, "chain3_paren");
+                    }
+                }
+            for (int a = 0; a < 5; ++a) for (int b = 0; b < 5; ++b) for (char t : targets)
+                for (const char* o : { "+", "-", "*", "/", "^", "<", "UADD" })
+                    emitType(mk({ "#" + std::to_string(a), o, "#" + std::to_string(b) }), t, "pair");
+            int n = thorough ? 15000 : 3000;
+            const Strs ops = { "+", "-", "*", "/", "^", "<", "==", "UADD", "UMIN" };
+            const Strs funcs = { "SUM", "MAX", "ABS", "DEF", "SORTA", "AVEA" };
+            const Strs odd = { "COFR", "AAQR", "BPR", ")", "(", "+", "*" };
+            std::function<void(Strs&, int)> gen = [&](Strs& out, int depth) {
+                int c = static_cast<int>(rng.below(10));
+                if (depth <= 0 || c < 3) { out.push_back("#" + std::to_string(rng.below(leaves.size()))); return; }
+                if (c < 7) { int terms = rng.range(2, 4); std::string o = rng.pick(ops);
+                    for (int i = 0; i < terms; ++i) { if (i) out.push_back(rng.coin(3, 4) ? o : rng.pick(ops)); gen(out, depth - 1); } return; }
+                if (c < 8) { out.push_back("("); gen(out, depth - 1); out.push_back(")"); return; }
+                if (c < 9) { out.push_back(rng.pick(funcs)); out.push_back("("); gen(out, depth - 1); out.push_back(")"); return; }
+                out.push_back("-"); gen(out, depth - 1);
+            };
+            for (int k = 0; k < n; ++k) {
+                Strs spec; gen(spec, rng.range(1, 4));
+                if (rng.coin(1, 5) && !spec.empty()) {
+                    size_t p = rng.below(spec.size());
+                    switch (rng.below(3)) {
+                    case 0: spec.erase(spec.begin() + static_cast<long>(p)); break;
+                    case 1: spec.insert(spec.begin() + static_cast<long>(p), rng.pick(odd)); break;
+                    default: spec[p] = rng.pick(odd); break;
+                    }
+                }
+                if (spec.empty()) continue;
+                emitType(mk(spec), rng.pick(targets), "random");
+            }
+        }
+        // (7) tokenisation of the DEFINE record: UDQDefine(deck items).tokens() vs the model of
+        //     quote_split / next_token / normalize_string_tokens / make_udq_tokens
+        {
+            World w0 = makeWorld(rng, false);
+            int n = thorough ? 12000 : 3000;
+            for (int k = 0; k < n; ++k) {
+                Strs toks = lexExpr(rng, w0);
+                Strs items = glueItems(rng, toks, rng.range(0, 3), 3);
+                if (rng.coin(1, 12)) {   // blanks inside an item, other white space at its ends
+                    size_t p = rng.below(items.size());
+                    items[p] = rng.pick(Strs{ " ", "\t", "" }) + items[p] + rng.pick(Strs{ " ", "  ", "\t" });
+                }
+                if (rng.coin(1, 25)) { size_t p = rng.below(items.size()); items[p] += "'"; }   // unbalanced quote
+                bool unb = false, other = false;
+                std::string ans = defineTokens(items, unb, other);
+                if (other) { sink.count("lex.skipped"); continue; }
+                std::string op = "udq.tokenize";
+                for (auto& it : items) op += " " + vh::hex(it);
+                sink.emit(op, unb ? std::string("err") : "ok" + ans);
+                sink.count(unb ? "lex.unbalanced" : "lex.ok");
+                sink.count("lex.items", static_cast<long>(items.size()));
+            }
+        }
+        // (5) definedness histories of well / group / field level DEFINEs through the real
+        //     UDQConfig::eval + UDQState: the summary values (and which of them exist) change from
+        //     report step to report step, elements become undefined and defined again, quantities
+        //     read each other (this step's or the previous step's value, by input order) and are
+        //     occasionally re-DEFINEd; after every step the whole UDQState content is compared.
+        {
+            int nh = thorough ? 3000 : 600;
+            for (int k = 0; k < nh; ++k) {
+                World w0 = makeWorld(rng, rng.coin(1, 3));
+                UDQParams udqp;
+                UDQConfig cfg(udqp);
+                UDQState udq_state(udqp.undefinedValue());
+                WellMatcher wm{ NameOrder(w0.wells) };
+                KeywordLocation loc;
+                struct QD { std::string key; char target; };
+                std::vector<QD> order;
+                std::set<std::string> patterns;
+                std::string op = "udq.whist";
+                bool bad = false;
+                auto define = [&](const std::string& key, char target, size_t step) {
+                    for (int attempt = 0; attempt < 8; ++attempt) {
+                        char setKind = target == 'G' ? 'G' : 'W';
+                        Gen g(rng, w0, setKind);
+                        Strs deck;
+                        if (rng.coin(1, 3)) {
+                            // division by a difference that is zero for some elements: undefined there
+                            std::string q = target == 'G' ? "GOPR" : target == 'W' ? (rng.coin() ? "WOPR" : "WWPR") : "FOPR";
+                            deck = { rng.pick(kValues), "/", "(", q, "-", std::to_string(rng.range(0, 3)), ")" };
+                            if (rng.coin()) { deck.push_back(rng.pick(Strs{ "+", "*", "UADD" })); Strs l = g.leaf(target == 'F' ? 'S' : setKind); deck.insert(deck.end(), l.begin(), l.end()); }
+                        } else {
+                            deck = g.expr(target == 'F' ? 'S' : (rng.coin(1, 6) ? 'S' : setKind), rng.range(1, 3));
+                        }
+                        try {
+                            ErrorGuard errors;
+                            auto pc = lenientTypes();
+                            {   // the same parse outside the configuration first: type errors / malformed trees are skipped
+                                UDQDefine probe(udqp, key, step, loc, deck, pc, errors);
+                                DefineReader dr; probe.serializeOp(dr);
+                                bool evaluable = true; showTree(*dr.ast, evaluable);
+                                NodeInfo top = readNode(*dr.ast);
+                                errors.clear();
+                                if (!evaluable || (top.type == UDQTokenType::number && probe.tokens().size() != 1)) continue;
+                            }
+                            cfg.add_define(key, loc, deck, step);
+                            std::string toks;
+                            for (auto& t : cfg.define(key).tokens()) toks += " " + tokProto(t);
+                            op += std::string(" ; D ") + hexOrDash(key) + " " + target + toks;
+                            for (auto& p : g.patterns) patterns.insert(p);
+                            return true;
+                        } catch (const std::exception&) { }
+                    }
+                    return false;
+                };
+                std::vector<QD> cands = { { "WUA", 'W' }, { "GUA", 'G' }, { "FUA", 'F' }, { "WUB", 'W' }, { "FUB", 'F' } };
+                for (size_t i = cands.size(); i > 1; --i) std::swap(cands[i - 1], cands[rng.below(i)]);
+                size_t nq = static_cast<size_t>(rng.range(2, 5));
+                for (size_t i = 0; i < nq && !bad; ++i) { if (define(cands[i].key, cands[i].target, 0)) order.push_back(cands[i]); }
+                if (order.empty()) { sink.count("whist.skipped"); continue; }
+                std::string ans;
+                int steps = rng.range(2, 5);
+                for (int sidx = 0; sidx < steps; ++sidx) {
+                    if (sidx > 0 && rng.coin(1, 4)) { const QD& q = order[rng.below(order.size())]; define(q.key, q.target, static_cast<size_t>(sidx)); }
+                    World w = makeWorld(rng, rng.coin(1, 3));
+                    w.wells = w0.wells; w.groups = w0.groups;
+                    // makeWorld drew values for its own well list; redraw them for the fixed one
+                    w.wellVars.clear(); w.groupVars.clear();
+                    for (const char* v : { "WOPR", "WWPR" }) {
+                        for (auto& well : w.wells) if (!rng.coin(1, 4)) w.wellVars[v][well] = rng.coin(1, 3) ? static_cast<double>(rng.range(0, 3)) : randVal(rng);
+                        if (w.wellVars[v].empty()) w.wellVars[v][w.wells[0]] = randVal(rng);
+                    }
+                    for (auto& g : w.groups) w.groupVars["GOPR"][g] = rng.coin(1, 3) ? static_cast<double>(rng.range(0, 3)) : randVal(rng);
+                    if (rng.coin(1, 3)) w.fieldVals["FOPR"] = static_cast<double>(rng.range(0, 3));
+                    SummaryState st(TimeService::now(), udqp.undefinedValue());
+                    for (auto& kv : w.fieldVals) st.update(kv.first, kv.second);
+                    for (auto& var : w.wellVars) for (auto& kv : var.second) st.update_well_var(kv.first, var.first, kv.second);
+                    for (auto& var : w.groupVars) for (auto& kv : var.second) st.update_group_var(kv.first, var.first, kv.second);
+                    Strs groups;
+                    {
+                        UDQFunctionTable udqft(udqp);
+                        std::unordered_map<std::string, UDT> tables;
+                        UDQContext ctx(udqft, wm, tables, UDQContext::MatcherFactories{}, st, udq_state);
+                        groups = ctx.groups();
+                        op += " ; S E=" + vh::hexF64(udqp.cmpEpsilon()) + " W=" + listHex(ctx.wells()) + " G=" + listHex(groups);
+                        for (auto& p : patterns) op += " M=" + hexOrDash(p) + ":" + listHex(ctx.wells(p));
+                    }
+                    if (!w.fieldVals.empty()) op += " F:" + entries(w.fieldVals);
+                    for (auto& var : w.wellVars) op += " WV:" + hexOrDash(var.first) + ":" + entries(var.second);
+                    for (auto& var : w.groupVars) op += " GV:" + hexOrDash(var.first) + ":" + entries(var.second);
+                    bool threw = false;
+                    try { cfg.eval(static_cast<size_t>(sidx), wm, {}, {}, st, udq_state); } catch (const std::exception&) { threw = true; }
+                    if (threw) { ans += (ans.empty() ? "" : ";") + std::string("throw"); sink.count("whist.throw"); break; }
+                    std::string line;
+                    for (size_t qi = 0; qi < order.size(); ++qi) {
+                        const QD& q = order[qi];
+                        if (qi) line += "/";
+                        if (q.target == 'F') { line += udq_state.has(q.key) ? vh::hexF64(udq_state.get(q.key)) : std::string("u"); continue; }
+                        const Strs& names = q.target == 'W' ? wm.wells() : groups;
+                        if (names.empty()) { line += "-"; continue; }
+                        for (size_t i = 0; i < names.size(); ++i) {
+                            bool has = q.target == 'W' ? udq_state.has_well_var(names[i], q.key) : udq_state.has_group_var(names[i], q.key);
+                            double v = has ? (q.target == 'W' ? udq_state.get_well_var(names[i], q.key) : udq_state.get_group_var(names[i], q.key)) : 0.0;
+                            line += (i ? "," : "") + hexOrDash(names[i]) + "=" + (has ? vh::hexF64(v) : std::string("u"));
+                            sink.count(has ? "whist.elem.defined" : "whist.elem.undefined");
+                        }
+                    }
+                    ans += (ans.empty() ? "" : ";") + line;
+                    sink.count("whist.steps");
+                }
+                sink.emit(op, ans);
+                sink.count("whist");
             }
         }
         sink.writeStats(outdir + "/stats.json");
@@ -989,6 +1296,96 @@ int main(int argc, char** argv) {
                     }
                 }
                 if (okk) { log.ok(); ++stats["definedness_history"]; }
+            }
+        }
+        // every cause is reported once (first witness), further instances are only counted
+        std::set<std::string> reported;
+        auto failOnce = [&](const std::string& key, const std::string& detail) {
+            ++stats[key + ".instances"];
+            if (reported.insert(key).second) log.fail(key, detail);
+        };
+        // (e) an operator, parenthesis or bracket where an operand is required must be a parse error.
+        //     (Acceptance only: the accepted trees hold a childless operator node whose evaluation
+        //     dereferences a null pointer, so they are never evaluated here.)
+        {
+            Env env(makeWorld(rng, true));
+            const std::vector<Strs> decks = { { "1", "+", "*" }, { "-", "*", "+", "2" }, { "1", "+", "UADD" }, { "2", "*", "<" }, { "2", "^", "*" },
+                                             { "1", "+", "==" }, { "1", "*", "^" }, { "(", "1", "+", "/", ")" }, { "ABS", "(", "2", "-", "UMAX", ")" },
+                                             { "1", "<", "+", "*" }, { "FOPR", "UADD", "-", "/" } };
+            for (const Strs& deck : decks) {
+                bool threw = false;
+                try { KeywordLocation loc; UDQDefine def(env.udqp, "FUX", 0, loc, deck); } catch (const std::exception&) { threw = true; }
+                if (threw) { log.ok(); ++stats["operand_required"]; }
+                else failOnce("operator-as-operand", "DEFINE FUX " + joinStrs(deck) + " : accepted; the tree holds an operator node without operands (null dereference when evaluated)");
+            }
+            // random: replace one operand of a well-formed scalar expression by an operator
+            int n = thorough ? 400 : 100;
+            for (int k = 0; k < n; ++k) {
+                Strs a = propExpr(rng, World{}, false, rng.range(1, 3));
+                std::vector<size_t> operands;
+                for (size_t i = 0; i < a.size(); ++i) { char* e = nullptr; std::strtod(a[i].c_str(), &e); if (*e == 0 || a[i] == "FOPR" || a[i] == "FWPR") operands.push_back(i); }
+                if (operands.empty()) continue;
+                a[operands[rng.below(operands.size())]] = rng.pick(Strs{ "*", "/", "^", "<", "==", "UADD", "UMIN" });
+                bool threw = false;
+                try { KeywordLocation loc; UDQDefine def(env.udqp, "FUX", 0, loc, a); } catch (const std::exception&) { threw = true; }
+                if (threw) { log.ok(); ++stats["operand_required"]; }
+                else failOnce("operator-as-operand", "DEFINE FUX " + joinStrs(a) + " : accepted");
+            }
+        }
+        // (f) the static type check must not depend on parentheses that do not change the tree:
+        //     `a o b o c` and `(a o b) o c` are the same expression and must be accepted or
+        //     rejected alike (default input error actions).
+        {
+            UDQParams udqp;
+            const std::vector<Strs> leaves = { { "WOPR" }, { "GOPR" }, { "FOPR" }, { "1" }, { "WOPR", "P1" }, { "2.5" } };
+            auto accepted = [&](const std::string& key, const Strs& deck) {
+                try { KeywordLocation loc; ParseContext pc; ErrorGuard errors; UDQDefine def(udqp, key, 0, loc, deck, pc, errors); bool e = static_cast<bool>(errors); errors.clear(); return !e; }
+                catch (const std::exception&) { return false; }
+            };
+            int n = thorough ? 600 : 150;
+            for (int k = 0; k < n; ++k) {
+                std::string key = rng.pick(Strs{ "FUX", "WUX", "GUX" });
+                Strs A = rng.pick(leaves), B = rng.pick(leaves), C = rng.pick(leaves);
+                std::string o1 = rng.pick(Strs{ "+", "-", "*", "/" });
+                std::string o2 = (o1 == "+" || o1 == "-") ? rng.pick(Strs{ "+", "-" }) : rng.pick(Strs{ "*", "/" });
+                Strs flat, par = { "(" };
+                auto cat = [](Strs& a, const Strs& b) { a.insert(a.end(), b.begin(), b.end()); };
+                cat(flat, A); flat.push_back(o1); cat(flat, B); flat.push_back(o2); cat(flat, C);
+                cat(par, A); par.push_back(o1); cat(par, B); par.push_back(")"); par.push_back(o2); cat(par, C);
+                bool x = accepted(key, flat), y = accepted(key, par);
+                if (x == y) { log.ok(); ++stats["type_check_paren_invariant"]; }
+                else failOnce("chain-type-check", "DEFINE " + key + " " + joinStrs(flat) + " is " + (x ? "accepted" : "rejected") + " but DEFINE " + key + " " + joinStrs(par) + " (the same tree) is " + (y ? "accepted" : "rejected"));
+            }
+        }
+        // (g) tokenisation does not depend on how the record is cut into deck items: operators and
+        //     parentheses written without blanks around them give the same tokens
+        {
+            World w0 = makeWorld(rng, false);
+            int n = thorough ? 1500 : 400;
+            for (int k = 0; k < n; ++k) {
+                Strs toks = lexExpr(rng, w0);
+                Strs glued = glueItems(rng, toks, rng.range(1, 3), 3);
+                bool u1, o1, u2, o2;
+                std::string a = defineTokens(toks, u1, o1), b = defineTokens(glued, u2, o2);
+                if (o1 || o2) { ++stats["lex_glue.skipped"]; continue; }
+                if (a == b && u1 == u2) { log.ok(); ++stats["lex_glue"]; }
+                else failOnce("token-glue", "items [" + joinStrs(toks) + "] and [" + joinStrs(glued) + "] give different tokens");
+            }
+        }
+        // (h) malformed records must end in an exception, not in a signal (run in a child process)
+        {
+            UDQParams udqp;
+            const std::vector<Strs> decks = { { "TU_FBHP", "[", "FOPR" }, { "TU_FBHP[FOPR" }, { "1", "+", "TU_X", "[", "WOPR" }, { "TU_X" }, { "2", "*", "TUX" } };
+            for (const Strs& deck : decks) {
+                int rc = runIsolated([&]() { KeywordLocation loc; ParseContext pc; ErrorGuard errors; UDQDefine def(udqp, "FUX", 0, loc, deck, pc, errors); errors.clear(); });
+                if (rc >= 0) { log.ok(); ++stats["isolated"]; }
+                else failOnce("table-lookup-unterminated", "DEFINE FUX " + joinStrs(deck) + " : the UDQDefine constructor died with signal " + std::to_string(-rc) + " (make_udq_tokens reads past the end of the token vector when ']' is missing)");
+            }
+            // well-formed look-ups and ordinary malformed records for comparison
+            for (const Strs& deck : { Strs{ "TU_FBHP", "[", "FOPR", "]" }, Strs{ "1", "+" }, Strs{ "(", "(" }, Strs{ "'P1" } }) {
+                int rc = runIsolated([&]() { KeywordLocation loc; ParseContext pc; ErrorGuard errors; UDQDefine def(udqp, "FUX", 0, loc, deck, pc, errors); errors.clear(); });
+                if (rc >= 0) { log.ok(); ++stats["isolated"]; }
+                else log.fail("define-signal", "DEFINE FUX " + joinStrs(deck) + " : signal " + std::to_string(-rc));
             }
         }
         std::ofstream f(outdir + "/prop_stats.json");
